@@ -123,7 +123,7 @@ pub fn check_indent_step(raw: &[u8], kind: u8, grow_path: bool) -> Outcome {
     if slb && !is_text && !is_eof {
         ensure!(extra >= 1, "C19: (indentation is applied before markup that follows markup)");
     }
-    witness!(extra == 2 && s.len[1] > 128, "indent longer than the preallocated buffer");
+    witness!(ilen2 > 128, "indent buffer grown past the preallocation");
     witness!(kind == 1 && cur < size, "shrink saturates at zero");
     core::mem::forget(okp);
     core::mem::forget(oki);
